@@ -5,6 +5,7 @@ import (
 	"fmt"
 	"regexp"
 	"strings"
+	"unicode/utf8"
 
 	"github.com/verily-src/fhirpath-go/fhirpath/internal/expr"
 	"github.com/verily-src/fhirpath-go/fhirpath/system"
@@ -93,7 +94,8 @@ func Length(ctx *expr.Context, input system.Collection, args ...expr.Expression)
 		return nil, fmt.Errorf("%w, received %v arguments, expected 0", ErrWrongArity, length)
 	}
 
-	result := system.Integer(len(fullString))
+	// length in characters, not bytes
+	result := system.Integer(utf8.RuneCountInString(fullString))
 	return system.Collection{result}, nil
 }
 
@@ -225,7 +227,9 @@ func Substring(ctx *expr.Context, input system.Collection, args ...expr.Expressi
 	if err != nil {
 		return nil, err
 	}
-	if int(start) >= len(fullString) {
+	// positions and lengths count characters, not bytes
+	runes := []rune(fullString)
+	if start < 0 || int(start) >= len(runes) {
 		return system.Collection{}, nil
 	}
 
@@ -244,13 +248,12 @@ func Substring(ctx *expr.Context, input system.Collection, args ...expr.Expressi
 		}
 	}
 
-	var result system.String
-	if substringLength > -1 && int(start+substringLength) < len(fullString) {
+	end := len(runes)
+	if substringLength > -1 && int(start)+int(substringLength) < len(runes) {
 		// Substring will not go out of bounds
-		result = system.String(fullString[start : start+substringLength])
-	} else {
-		result = system.String(fullString[start:])
+		end = int(start) + int(substringLength)
 	}
+	result := system.String(runes[start:end])
 	return system.Collection{result}, nil
 }
 
@@ -286,8 +289,12 @@ func IndexOf(ctx *expr.Context, input system.Collection, args ...expr.Expression
 		return nil, err
 	}
 
-	result := system.Integer(strings.Index(fullString, substring))
-	return system.Collection{result}, nil
+	index := strings.Index(fullString, substring)
+	if index > 0 {
+		// strings.Index is a byte offset: convert it to a character position
+		index = utf8.RuneCountInString(fullString[:index])
+	}
+	return system.Collection{system.Integer(index)}, nil
 }
 
 // Matches returns true when the value matches the given regular expression.
